@@ -29,9 +29,9 @@ def c11_1(R):
     for it, cls in ret_assignments(d):
         if cls == "None":
             for c, truth, desc, *_ in controlling(d, it.bb):
-                if c.kind == "bin" and c.op == "Lt" and truth:
-                    tb = trace(d, c.b)
-                    if tb.kind == "const" and tb.root[1].const_item == "constants::UTP_HEADER":
+                for r_, x_, y_ in implied(c, truth):
+                    tb = trace(d, y_)
+                    if r_ == "lt" and tb.kind == "const" and tb.root[1].const_item == "constants::UTP_HEADER":
                         okg = True
     if okg and F.const_scalar("constants::UTP_HEADER") == 20:
         R.ok("short-datagram=>None", DES, "len() < UTP_HEADER (20) -> None")
@@ -333,18 +333,20 @@ def c11_6(R):
     F = R.facts
     seen = set()
     nfound = [0]
-    for fname in ("socket::Dispatcher::on_control", "socket::Dispatcher::try_send_rst"):
-        for b in [F.body(fname)] + F.closures_of(fname):
-            if b is None:
-                continue
+    failed = [0]
+    if True:
+        for b in F.bodies(lambda n_: n_.startswith("socket::")):
+            fname = owner_fn(b)
             for s in b.stmts():
                 if s.rv.kind == "agg" and s.rv.j.get("adt") == "raw::UtpHeader":
                     names = s.rv.j["fields"]
                     ht = classify(b, s.rv.ops[names.index("htype")])
                     cid_t, k = affine_trace(b, s.rv.ops[names.index("connection_id")])
                     nfound[0] += 1
-                    if fname.endswith("on_control"):
-                        okc = "ST_SYN" in ht and cid_t.kind == "call" and call_matches(cid_t.root[1], ("socket::Dispatcher::get_next_free_conn_id",)) and k == 0
+                    if "ST_SYN" in ht:
+                        # the id may reach the literal through a private helper's parameter
+                        srcs = resolve_param(F, b, cid_t, k)
+                        okc = all(t_.kind == "call" and call_matches(t_.root[1], ("socket::Dispatcher::get_next_free_conn_id",)) and k_ == 0 for b_, t_, k_ in srcs)
                         if okc:
                             seen.add("syn")
                             R.ok("syn-header", fname, "ST_SYN, connection_id = get_next_free_conn_id(addr)")
@@ -359,3 +361,6 @@ def c11_6(R):
                         else:
                             R.fail([fname, "RST-header", "type=%s conn_id=%s%+d ack_nr=%s%+d" % (ht, ".".join(cid_t.fields[-2:]), k, ".".join(ack_t.fields[-2:]), ka)], "the RESET answering a refused SYN does not carry the SYN's own connection id / sequence number: the initiator cannot match it", where=s.where(), instance="rst-header")
     R.floor("SYN and RST header aggregates", nfound[0], 2)
+    for what in ("syn", "rst"):
+        if what not in seen and nfound[0] >= 2:
+            R.fail(["socket", "no-%s-header-literal" % what], "no conforming %s header is built by the dispatcher any more" % what.upper(), instance=what + "-header")
